@@ -197,7 +197,18 @@ func (r *vR2Rig) caughtUp(d time.Duration) bool {
 				}
 			}
 			if ok {
-				return true
+				// hashicorp/raft counts an entry as applied when it is queued for the FSM: wait for the queues to drain
+				for _, n := range r.nodes {
+					if n.up && n.cc.raft.raft.Stats()["fsm_pending"] != "0" {
+						ok = false
+					}
+				}
+			}
+			if ok {
+				time.Sleep(10 * time.Millisecond) // the entry the FSM goroutine had already taken from the queue
+				if l.cc.raft.raft.LastIndex() == last {
+					return true
+				}
 			}
 		}
 		if time.Now().After(deadline) {
